@@ -6,7 +6,15 @@ ENGINE = "split"
 RULE = ("stream G: seeded random derivations of the dialect grammar of DESIGN.md section 3 (whitespace kinds incl. CRLF, brace nesting "
         "0-4, quoted / braced / bare pieces, '#' concatenations, escaped delimiters, trailing commas, @a{k} forms) with constructive "
         "ground truth; three-way comparison implementation = model = ground truth, and the same derivations sent as ASTs of the Coq grammar (Model/Grammar.v): Coq's render = generator text, Coq's expected = implementation's blocks, wf_doc_b = true. distinct = distinct document text; non-trivial = "
-        "at least two blocks or an entry with at least two fields")
+        "at least two blocks or an entry with at least two fields. "
+        "stream Q (oracle only): SEQUENCES of parses in one process - each step parses a document (grammar derivation or a small "
+        "document of boundary forms: @t{k}, @t{k,}, @t{ k }, empty values, reserved / case-variant field names) with "
+        "Splitter(text).split(), split(Library()), parse_string(text, parse_stack=[] / ()) or parse_string(..., library=Library()), "
+        "must yield exactly its ground truth, and then the caller edits results handed out so far through the public API (entry[k] = v, "
+        "set_field, fields.append / insert / clear / reverse, pop, del, Field.key / .value, block key / type / value / comment setters, "
+        "parser metadata, Library.remove / add, blocks.clear) before the next parse - of another document or of the same text again; "
+        "after every parse and every batch of edits the blocks the caller did not touch, of this and of every earlier result, must still "
+        "equal their ground truth (what a caller does with one result, or with one block, never shows up in another)")
 TRUSTED = ["the ground truth is produced by the generator (harness/gens_split.py) from the derivation, not by parsing"]
 ASSUMPTIONS = ["documents outside the dialect (boundaries B1-B5 of DESIGN.md section 3) are not claimed by this property"]
 
@@ -23,10 +31,17 @@ def generate(rng, tier):
         # the same derivation as an AST of the Coq grammar: Coq's render / expected / wf_doc_b against the
         # generator's text and the implementation's blocks
         cases.append({"stream": "G-ast", "input": {"text": text, "items": items, "ast": ast}})
+    seqs = [gen_sequence(rng) for _ in range(500 if tier == "quick" else 12000)]
+    # shortest first: the first failing sequence reported is then a small one
+    seqs.sort(key=lambda q: (len(q["steps"]), sum(len(d["text"]) for d in q["docs"])))
+    for q in seqs:
+        cases.append({"stream": "Q", "input": q})
     return cases
 
 
 def impl(case):
+    if "steps" in case["input"]:
+        return impl_sequence(case)
     text, items = case["input"]["text"], case["input"]["items"]
     if "ast" in case["input"]:
         import enc, implutil
@@ -65,3 +80,296 @@ def impl(case):
 
 def shrink(case):
     return []
+
+
+# ====================================================================== stream Q: sequences of parses with caller edits between
+# A document of the dialect parses to what is written in it - whatever the same process parsed before and whatever the caller
+# did with the results of those parses.  One case = several documents, a list of steps (parse document d with entry point p, then
+# apply edits to results handed out so far).  Everything is checked against the constructive ground truth of the documents.
+PARSERS = ["split", "split_none", "split_lib", "ps_list", "ps_tuple", "ps_lib"]
+B_KEYS = ["reftexStyle", "k1", "K1", "k2", "a:b", "0", "x.y-z", "Knuth84", "knuth84", "_", "key/1", "anotherBare", "ID"]
+B_NAMES = ["title", "year", "note", "author", "a", "ID", "ENTRYTYPE", "Title", "owner", "x_1", "0"]
+B_VALUES = ["{}", '""', "0", "{0}", "{x}", '"x y"', "{a, b = c}", "{{N}ested {T}itle}", "jan", "k1 # {x}", "{ }", '{"}', '{a "b" c}',
+            "{@ misc}", '"{x} y"', "1990", '"a" # b # {c}', "{seen on shelf}"]
+E_NAMES = ["note", "owner", "title", "year", "ID", "ENTRYTYPE", "Title", "a", "", "0"]
+E_VALUES = ["{seen on shelf}", "{me}", "", " ", "0", 0, False, None, "{x}", ["a", "b"], 1990, "@misc{k}"]
+
+
+def gen_boundary_doc(rng):
+    """A small document made of the boundary forms of every block kind (constructive ground truth as in gens_split.gen_doc)."""
+    parts, items = [], []
+    keys = list(B_KEYS)
+    rng.shuffle(keys)
+    skeys = ["s1", "S1", "jan", "k1"]
+    rng.shuffle(skeys)
+    last_free = True     # no free text first: keeps the start line of the first block trivial to state
+    text = rng.choice(["", "", "\n", " ", "\n\n"])
+    for _ in range(rng.randint(1, 5)):
+        kind = rng.choice(["entry", "entry", "entry", "bare", "bare", "bare", "string", "preamble", "comment", "freetext"])
+        if kind == "freetext" and last_free:
+            kind = "bare"
+        if kind in ("entry", "bare") and not keys:
+            kind = "comment"
+        if kind == "string" and not skeys:
+            kind = "comment"
+        line0 = text.count("\n")
+        if kind == "bare":
+            typ, key = rng.choice(G.TYPES), keys.pop()
+            form = rng.choice(["@%s{%s}", "@%s{%s}", "@%s{%s}", "@%s{ %s }", "@%s{%s,}", "@%s{%s, }", "@%s{%s,\n}", "@%s {%s}", "@%s{\n%s\n}"])
+            raw = form % (typ, key)
+            items.append({"kind": "entry", "raw": raw, "line": line0, "type": typ.lower(), "key": key, "fields": []})
+        elif kind == "entry":
+            typ, key = rng.choice(G.TYPES), keys.pop()
+            names = rng.sample(B_NAMES, rng.randint(1, 3))
+            multi = rng.random() < 0.5
+            buf = "@%s{%s," % (typ, key)
+            fields = []
+            for j, nm in enumerate(names):
+                val = rng.choice(B_VALUES)
+                buf += "\n  " if multi else " "
+                fields.append([nm, val, line0 + buf.count("\n")])
+                buf += nm + rng.choice([" = ", "=", " =", "= "]) + val
+                if j < len(names) - 1 or rng.random() < 0.4:
+                    buf += ","
+            raw = buf + ("\n}" if multi else rng.choice(["}", " }"]))
+            items.append({"kind": "entry", "raw": raw, "line": line0, "type": typ.lower(), "key": key, "fields": fields})
+        elif kind == "string":
+            name, val = skeys.pop(), rng.choice(B_VALUES)
+            raw = "@%s{%s = %s}" % (rng.choice(["string", "String", "STRING"]), name, val)
+            items.append({"kind": "string", "raw": raw, "line": line0, "key": name, "value": val})
+        elif kind == "preamble":
+            body = rng.choice(["", '"x"', "{a} # b", '"\\newcommand{\\x}{y}"', "0"])
+            raw = "@%s{%s}" % (rng.choice(["preamble", "Preamble"]), body)
+            items.append({"kind": "preamble", "raw": raw, "line": line0, "value": body})
+        elif kind == "comment":
+            body = rng.choice(["", "x", "a {b} c", "0", "@ misc", "k = {v},", 'a "b'])
+            raw = "@%s{%s}" % (rng.choice(["comment", "Comment"]), body)
+            items.append({"kind": "comment", "raw": raw, "line": line0, "comment": body})
+        else:
+            raw = rng.choice(["% a remark", "x", "0", "some free text, with = marks", "}"])
+            items.append({"kind": "freetext", "raw": raw, "line": line0, "comment": raw})
+        last_free = kind == "freetext"
+        text += raw + rng.choice(["\n", "\n", "\n\n", " ", "\n ", "\r\n", "\t"])
+    return text, items
+
+
+def gen_edits(rng, target, items):
+    """Things an ordinary caller does with a parse result (JSON description; applied by apply_edit)."""
+    eds = []
+    ents = [i for i, it in enumerate(items) if it["kind"] == "entry"]
+    r = rng.random()
+    if r < 0.3 and ents:
+        # the everyday one: annotate every entry of the result
+        for _ in range(rng.randint(1, 2)):
+            eds.append([target, rng.choice(["annotate", "annotate", "annotate_set_field", "annotate_append"]), None,
+                        rng.choice(E_NAMES), rng.choice(E_VALUES)])
+        return eds
+    for _ in range(rng.randint(0, 4) if items else rng.randint(0, 1)):
+        if not items or rng.random() < 0.1:
+            eds.append([target, rng.choice(["blocks_clear", "blocks_pop", "blocks_reverse"]), None] if rng.random() < 0.6 else
+                       [target, "add", None, rng.choice(G.TYPES), rng.choice(B_KEYS), [[rng.choice(E_NAMES), rng.choice(E_VALUES)]]])
+            continue
+        i = rng.randrange(len(items))
+        it = items[i]
+        if rng.random() < 0.12:
+            eds.append([target, rng.choice(["meta", "meta_dict", "remove"]), i, rng.choice(["k", "removed_enclosing", ""]), rng.choice(E_VALUES)])
+        elif it["kind"] == "entry":
+            op = rng.choice(["setitem", "setitem", "set_field", "append", "insert", "extend", "pop", "del", "clear", "reverse",
+                             "fval", "fkey", "key", "type", "fields_assign"])
+            nm, val = rng.choice(E_NAMES), rng.choice(E_VALUES)
+            if op in ("pop", "del") and it["fields"] and rng.random() < 0.7:
+                nm = rng.choice(it["fields"])[0]
+            if op in ("fval", "fkey"):
+                eds.append([target, op, i, rng.randint(0, max(0, len(it["fields"]) - 1)), val if op == "fval" else nm])
+            elif op in ("extend", "fields_assign"):
+                eds.append([target, op, i, [[rng.choice(E_NAMES), rng.choice(E_VALUES)] for _ in range(rng.randint(0, 2))]])
+            elif op in ("key", "type"):
+                eds.append([target, op, i, rng.choice(B_KEYS + G.TYPES + ["", None])])
+            elif op in ("clear", "reverse"):
+                eds.append([target, op, i])
+            elif op in ("pop", "del"):
+                eds.append([target, op, i, nm])
+            else:
+                eds.append([target, op, i, nm, val])
+        elif it["kind"] == "string":
+            eds.append([target, rng.choice(["key", "value"]), i, rng.choice(E_VALUES)])
+        elif it["kind"] == "preamble":
+            eds.append([target, "value", i, rng.choice(E_VALUES)])
+        else:
+            eds.append([target, "comment", i, rng.choice(E_VALUES)])
+    return eds
+
+
+def gen_sequence(rng):
+    docs = []
+    for _ in range(rng.randint(1, 3)):
+        for _try in range(20):
+            if rng.random() < 0.5:
+                text, items = gen_boundary_doc(rng)
+            else:
+                text, items = G.gen_doc(rng, max_items=rng.choice([1, 3, 6]), depth=rng.randint(0, 2),
+                                        kinds=rng.choice([None, ["entry"], ["entry", "entry", "entry", "string", "comment", "freetext"]]),
+                                        field_names=rng.choice([None, B_NAMES]))
+            if SC.doc_is_nodup(items):
+                break
+        else:
+            text, items = "", []
+        docs.append({"text": text, "items": items})
+    steps = []
+    for k in range(rng.randint(2, 5)):
+        # a new document, or one parsed before (the same text again)
+        d = rng.randrange(len(docs)) if k >= len(docs) or rng.random() < 0.3 else k
+        eds = []
+        for _ in range(rng.choice([1, 1, 1, 2, 0])):
+            target = k if rng.random() < 0.75 else rng.randint(0, k)      # mostly the fresh result, sometimes an older one
+            eds.extend(gen_edits(rng, target, docs[d]["items"] if target == k else docs[steps[target]["doc"]]["items"]))
+        steps.append({"doc": d, "parser": rng.choice(PARSERS), "edits": eds})
+    return {"docs": docs, "steps": steps}
+
+
+def parse_with(parser, text):
+    import bibtexparser
+    from bibtexparser.library import Library
+    from bibtexparser.splitter import Splitter
+    if parser == "split":
+        return Splitter(text).split()
+    if parser == "split_none":
+        return Splitter(text).split(library=None)
+    if parser == "split_lib":
+        return Splitter(text).split(Library())
+    if parser == "ps_list":
+        return bibtexparser.parse_string(text, parse_stack=[])
+    if parser == "ps_tuple":
+        return bibtexparser.parse_string(text, parse_stack=())
+    return bibtexparser.parse_string(text, parse_stack=[], library=Library())
+
+
+def apply_edit(lib, blocks, ed):
+    """Apply one caller edit to a result (lib, blocks as handed out); returns the indices of the blocks the caller touched.
+    What the edit call itself does (it may well raise for odd arguments) is not the subject of this property."""
+    from bibtexparser.model import Entry, Field
+    op, i = ed[1], ed[2]
+    ents = [j for j, b in enumerate(blocks) if isinstance(b, Entry)]
+    touched = set(ents) if op.startswith("annotate") else ({i} if i is not None else set())
+    try:
+        b = blocks[i] if i is not None else None
+        if op == "annotate":
+            for e in lib.entries:
+                e[ed[3]] = ed[4]
+        elif op == "annotate_set_field":
+            for e in lib.entries:
+                e.set_field(Field(ed[3], ed[4]))
+        elif op == "annotate_append":
+            for e in lib.entries:
+                e.fields.append(Field(ed[3], ed[4]))
+        elif op == "blocks_clear":
+            lib.blocks.clear()
+        elif op == "blocks_pop":
+            lib.blocks.pop()
+        elif op == "blocks_reverse":
+            lib.blocks.reverse()
+        elif op == "add":
+            lib.add(Entry(ed[3], ed[4], [Field(k, v) for k, v in ed[5]]))
+        elif op == "meta":
+            b.set_parser_metadata(ed[3], ed[4])
+        elif op == "meta_dict":
+            b.parser_metadata[ed[3]] = ed[4]
+        elif op == "remove":
+            lib.remove(b)
+        elif op == "setitem":
+            b[ed[3]] = ed[4]
+        elif op == "set_field":
+            b.set_field(Field(ed[3], ed[4]))
+        elif op == "append":
+            b.fields.append(Field(ed[3], ed[4]))
+        elif op == "insert":
+            b.fields.insert(0, Field(ed[3], ed[4]))
+        elif op == "extend":
+            b.fields.extend(Field(k, v) for k, v in ed[3])
+        elif op == "fields_assign":
+            b.fields = [Field(k, v) for k, v in ed[3]]
+        elif op == "pop":
+            b.pop(ed[3])
+        elif op == "del":
+            del b[ed[3]]
+        elif op == "clear":
+            b.fields.clear()
+        elif op == "reverse":
+            b.fields.reverse()
+        elif op == "fval":
+            b.fields[ed[3]].value = ed[4]
+        elif op == "fkey":
+            b.fields[ed[3]].key = ed[4]
+        elif op == "key":
+            b.key = ed[3]
+        elif op == "type":
+            b.entry_type = ed[3]
+        elif op == "value":
+            b.value = ed[3]
+        elif op == "comment":
+            b.comment = ed[3]
+    except Exception:  # noqa: BLE001
+        pass
+    return touched
+
+
+class _Blocks:
+    def __init__(self, blocks):
+        self.blocks = blocks
+
+
+def impl_sequence(case):
+    import hashlib
+    import json
+    import implutil
+    inp = case["input"]
+    docs, steps = inp["docs"], inp["steps"]
+    rec = {"sx_in": None, "sx_out": None, "key": "seq:" + hashlib.sha1(json.dumps(inp, sort_keys=True).encode()).hexdigest()[:16], "tags": ["sequence"],
+           "nontrivial": len(steps) >= 2 and any(s["edits"] for s in steps[:-1])}
+    results = []          # per step: (lib, blocks as handed out, items, touched indices)
+
+    def untouched_intact(when):
+        for n, (_, blocks, items, touched) in enumerate(results):
+            keep = [j for j in range(len(items)) if j not in touched]
+            ok, detail = SC.expected_matches(_Blocks([blocks[j] for j in keep]), [items[j] for j in keep])
+            if not ok:
+                return False, "%s: the result of step %d (document %r), in blocks the caller never touched (positions %r), no longer " \
+                              "has what is written in its source: %s" % (when, n, docs[steps[n]["doc"]]["text"][:200], keep, detail)
+        return True, ""
+
+    summ = []
+    for n, st in enumerate(steps):
+        doc = docs[st["doc"]]
+        text, items = doc["text"], doc["items"]
+        r = implutil.guarded(lambda: parse_with(st["parser"], text))
+        if r[0] == "exc":
+            rec["oracle"] = {"ok": False, "detail": "step %d: %s of %r raised %s" % (n, st["parser"], text[:200], r[2])}
+            rec["summary"] = "raised " + r[2]
+            return rec
+        lib = r[1]
+        summ.append("%d:%s" % (n, ",".join(t[:1] for t in SC.block_kinds(lib))))
+        history = "; ".join("step %d parsed document %d with %s, then the caller did %s" % (m, s["doc"], s["parser"], json.dumps(s["edits"]))
+                            for m, s in enumerate(steps[:n])) or "nothing"
+        ok, detail = SC.expected_matches(lib, items)
+        if ok and lib.failed_blocks:
+            ok, detail = False, "failed block in a well-formed duplicate-free document"
+        if not ok:
+            rec["oracle"] = {"ok": False, "detail": "step %d: %s of %r does not yield what is written: %s  [before it: %s]"
+                                                    % (n, st["parser"], text[:300], detail, history[:1500])}
+            rec["summary"] = " ".join(summ)
+            return rec
+        results.append((lib, list(lib.blocks), items, set()))
+        ok, detail = untouched_intact("after the parse of step %d" % n)
+        for ed in st["edits"] if ok else []:
+            tl, tb, _, tt = results[ed[0]]
+            tt |= apply_edit(tl, tb, ed)
+            ok, detail = untouched_intact("after edit %s in step %d" % (json.dumps(ed), n))
+            if not ok:
+                break
+        if not ok:
+            rec["oracle"] = {"ok": False, "detail": detail + "  [before it: %s]" % history[:1500]}
+            rec["summary"] = " ".join(summ)
+            return rec
+    rec["oracle"] = {"ok": True, "detail": ""}
+    rec["summary"] = " ".join(summ)
+    return rec
